@@ -31,7 +31,7 @@ TRUSTED_BASE = [
     "Coq 8.16.1 kernel + vm_compute (case evaluation); no native_compute",
     "axioms: none (Print Assumptions: Closed under the global context for every C03 theorem)",
     "tools/py2v.py fragment translator and tools/sitegen/reduce.py (statement ranges of SparseArray.reduce, "
-    "the masked-assignment rewriting rule data[m] = f(data[m], e[m]) -> if m: data = f(data, e), 44 source pins); "
+    "the masked-assignment rewriting rule data[m] = f(data[m], e[m]) -> if m: data = f(data, e), inlining of a branch-local abbreviation, 44 source pins); "
     "Lib/PyReduce.v as the meaning of NumPy ufuncs on Python ints",
     "Spec/NpReduce.v as a description of numpy ufunc.reduce (cross-checked against NumPy on every generated case)",
     "Model/Reduce.v hand transcription of COO._reduce_calc/_reduce_return, _calc_counts_invidx, reduceat, "
@@ -403,43 +403,10 @@ def gcxs_clause(spec, axis):
     return None
 
 
-NARROW_INT = {"int8": (-128, 127), "uint8": (0, 255), "int16": (-32768, 32767), "uint16": (0, 65535),
-              "int32": (-2 ** 31, 2 ** 31 - 1), "uint32": (0, 2 ** 32 - 1)}
-
-
-def wrap_clause(c):
-    """clause narrow_int_fill_correction_wraps: SparseArray.reduce computes the fill value of a sum / product,
-    `reduce_super_ufunc(self.fill_value, n_cols)` = fill * n_cols / fill ** n_cols, in the DATA dtype when n_cols is a
-    Python int (COO, and GCXS through its flatten path); NumPy accumulates narrow integers in the platform integer.
-    Holds of a case when that exact value does not fit the data dtype (it then shows in every group without a stored
-    element; mean/var/std inherit it through their sums)."""
-    dt = c.get("in_dtype")
-    if dt not in NARROW_INT:
-        return None
-    if c["kind"] == "dtype" and c.get("uf") in ("add", "multiply"):
-        uf = c["uf"]
-    elif c["kind"] in ("mean", "var", "std", "nanmean"):
-        uf = "add"
-    else:
-        return None
-    sp = c["spec"]
-    nd = len(sp["shape"])
-    try:
-        axes = norm_axes(c["axis"], nd)
-    except TypeError:
-        return None
-    if any(not (0 <= a < nd) for a in axes) or len(set(axes)) != len(axes):
-        return None
-    if sp["format"] == "gcxs" and len(axes) != nd:
-        return None          # the re-compression path takes n_cols from a NumPy integer: no wrap
-    ncols = math.prod(sp["shape"][a] for a in axes)
-    rf = sp["fill"] * ncols if uf == "add" else sp["fill"] ** ncols
-    lo, hi = NARROW_INT[dt]
-    return None if lo <= rf <= hi else "narrow_int_fill_correction_wraps"
-
-
 def directed_wrap_cases():
-    """seed-independent cases of the clause narrow_int_fill_correction_wraps (always hit, both tiers)"""
+    """seed-independent regression cases (both tiers) for the repaired defect `narrow_int_fill_correction_wraps`
+    (round 6, 5ade83d): sums / products / means of narrow-integer arrays whose fill correction fill * n_cols or
+    fill ** n_cols does not fit the data dtype.  Untagged: a recurrence is a new violation."""
     out = []
     for dt in ("int8", "uint8", "int16"):
         for fmt in ("coo", "gcxs"):
@@ -884,8 +851,7 @@ def campaign(build, tier, seed, report, budget=1):
         if badl:
             ax = _axis_py(c["axis"])
             viol.append({"property": "C03", "op": "reduce_differential", "function": name, "kind": "value",
-                         "clause": (r.get("clause") if isinstance(r, dict) else None) or gcxs_clause(c["spec"], c["axis"])
-                         or wrap_clause(c),
+                         "clause": (r.get("clause") if isinstance(r, dict) else None) or gcxs_clause(c["spec"], c["axis"]),
                          "in_dtype": c.get("in_dtype"),
                          "format": c["spec"]["format"], "what": "; ".join(badl)[:400], "case": c, "impl": badl,
                          "replay_py": diff_replay_line(c, name)})
